@@ -23,6 +23,7 @@ EXPLANATION = (
     "module stores), memoising decorators nowhere else."
 )
 UTIL = "src/ahbicht/utility_functions.py"
+ALLOWED_MEMO_FUNCS = (f"{G.COND_MOD}.parse_condition_expression_to_tree", f"{G.AHB_MOD}.parse_ahb_expression_to_single_requirement_indicator_expressions")
 PARSERS = [
     (G.COND_MOD, "parse_condition_expression_to_tree", "src/ahbicht/expressions/condition_expression_parser.py"),
     (G.AHB_MOD, "parse_ahb_expression_to_single_requirement_indicator_expressions", "src/ahbicht/expressions/ahb_expression_parser.py"),
@@ -247,6 +248,26 @@ def check(ctx: Ctx) -> None:
                 ctx.ob("C11.only", f"{mod_.name}::unwrap::{norm(n_, 50)}", False,
                        f"{mod_.name} reaches behind a decorator ({norm(n_, 80)}): a caller that obtains the lru_cached parse function itself receives the cache entry, not a copy",
                        file=f"src/{mod_.relpath}" if not str(mod_.relpath).startswith("src/") else str(mod_.relpath), line=n_.lineno)
+    # a memoising wrapper built by a plain call (not as a decorator): lru_cache(...)(f), cache(f) - at module, class or function level
+    allowed_decorators = set()
+    for q_ in ALLOWED_MEMO_FUNCS:
+        f_ = model.functions.get(q_)
+        if f_ is not None:
+            for d_ in f_.node.decorator_list:
+                allowed_decorators.update(id(x_) for x_ in ast.walk(d_))
+    for mod_ in model.modules.values():
+        if mod_.name.endswith("_vstat_stub"):
+            continue
+        for n_ in ast.walk(mod_.tree):
+            if isinstance(n_, ast.Call) and isinstance(n_.func, (ast.Name, ast.Attribute)) and id(n_) not in allowed_decorators:
+                res_ = model.resolve_expr(mod_, n_.func)
+                if res_ in ("ext:functools.lru_cache", "ext:functools.cache", "ext:functools.cached_property"):
+                    deco_of = [f_ for f_ in model.functions.values() if f_.module is mod_ and any(n_ is d_ or n_ in list(ast.walk(d_)) for d_ in f_.node.decorator_list)]
+                    if deco_of:
+                        continue  # decorators are judged by the rule below (function by function)
+                    ctx.ob("C11.only", f"{mod_.name}::memo-call::{norm(n_, 50)}", False,
+                           f"{mod_.name} builds a memoising wrapper by a call ({norm(n_, 80)}): results would be shared between callers without the copying wrapper",
+                           file=str(mod_.relpath) if str(mod_.relpath).startswith("src/") else f"src/{mod_.relpath}", line=n_.lineno)
     # memoisation nowhere else
     parse_qualnames = {f"{m}.{f}" for m, f, _ in PARSERS}
     for fn in model.functions.values():
